@@ -66,10 +66,29 @@ static int64_t num_of(const model::JVal& v) {
   if (v.k == model::JVal::Real) return (int64_t)v.dbl();
   return 0;
 }
+static bool plan_from_jval(const model::JVal& r, Plan& p, std::string& err);
 bool plan_from_json(const std::string& text, Plan& p, std::string& err) {
   model::ParseOut po = model::parse(text);
   if (!po.ok) { err = "plan file is not valid JSON at " + std::to_string(po.err_pos); return false; }
-  const model::JVal& r = po.v;
+  return plan_from_jval(po.v, p, err);
+}
+// a replay file is either one plan or {"seq":[plan,...]}: a history of runs executed in one process
+bool plan_load_seq(const std::string& path, std::vector<Plan>& out, std::string& err) {
+  std::ifstream f(path, std::ios::binary);
+  if (!f) { err = "cannot open " + path; return false; }
+  std::stringstream ss; ss << f.rdbuf();
+  model::ParseOut po = model::parse(ss.str());
+  if (!po.ok) { err = "replay file is not valid JSON at " + std::to_string(po.err_pos); return false; }
+  for (auto& kv : po.v.o) if (kv.first == "seq") {
+    for (auto& e : kv.second.a) { Plan p; if (!plan_from_jval(e, p, err)) return false; out.push_back(std::move(p)); }
+    return !out.empty();
+  }
+  Plan p;
+  if (!plan_from_jval(po.v, p, err)) return false;
+  out.push_back(std::move(p));
+  return true;
+}
+static bool plan_from_jval(const model::JVal& r, Plan& p, std::string& err) {
   if (r.k != model::JVal::Obj) { err = "plan root not object"; return false; }
   p = Plan();
   for (auto& kv : r.o) {
